@@ -33,19 +33,22 @@ theorem editorJustifyOpts_regenerated (h : Gen.Code.editorJustifyOpts_extracted 
          editorCommit_regenerated cx (by decide)]
        go_norm
        generalize o.withDefaults cx = od
-       split
-       · simp only [bind_pure]
-         congr 1
-         funext i para pre suf
-         simp only [Block.mapLinesM, bind_assoc, pure_bind]
-         generalize Block.new _ od.lineSep = bl
-         refine mapM_singletons_bind_congr _ _ _ _ _ ?_ ?_
-         · intro i hi
-           go_close
-         · intro ys
-           simp only [flatten_map_singleton]
-           go_close
-       · go_close)
+       cases hpp : od.preservePara
+       all_goals
+         (simp only [hpp, Bool.false_eq_true, Bool.true_eq_false, if_true, if_false, ↓reduceIte, bind_pure]
+          first
+            | -- paragraph mode
+              (congr 1
+               funext i para pre suf
+               simp only [Block.mapLinesM, bind_assoc, pure_bind]
+               generalize Block.new _ od.lineSep = bl
+               refine mapM_singletons_bind_congr _ _ _ _ _ ?_ ?_
+               · intro i hi
+                 go_close
+               · intro ys
+                 simp only [flatten_map_singleton]
+                 go_close)
+            | go_close))
 
 theorem editorJustify_regenerated (h : Gen.Code.editorJustify_extracted = true)
     (hd : DefaultsOk cx) (hpos : ∀ a, 0 < cx.blen a) (ed : Editor α) (width : Int) :
